@@ -11,7 +11,7 @@ LEVEL_TEXT = ("Static structural proof of necessary conditions: (R6.1) alias-bas
               "combiner and the curly-brace splicer treat the same set of cell texts as 'missing' ({'', 'n/a'}), and every "
               "column transformer can return only members of that set for a missing cell. The content of the assembled "
               "annotation, ordering and delimiter well-formedness in general are NOT decided.")
-LEVEL_EXTRA = 'Added after the seeded evaluation: (R6.2) the missing marker is compared as a whole cell, never removed as a substring; (R6.3) every reference substitution goes through the n/a-aware splicer; (R6.4) one reference pattern (text and flags) for assembly and sidecar validation.'
+LEVEL_EXTRA = 'Added after the seeded evaluation: (R6.2) the missing marker is compared as a whole cell, never removed as a substring; (R6.3) every reference substitution goes through the n/a-aware splicer; (R6.4) one reference pattern (text and flags) for assembly and sidecar validation. (R6.5) text interpolated into a regular-expression pattern in the assembly modules goes through re.escape; a substituting transformer steps aside for every missing cell text.'
 
 
 def sentinels(expr, var):
@@ -33,6 +33,24 @@ def sentinels(expr, var):
         if isinstance(expr.ops[0], ast.NotIn) and isinstance(c, (ast.Tuple, ast.List, ast.Set)):
             return {e.value for e in c.elts if isinstance(e, ast.Constant)}
     return out
+
+
+def missing_set(test, var):
+    """Cell texts for which the boolean expression is TRUE (a positive 'is missing' test of variable `var`)."""
+    if isinstance(test, ast.BoolOp) and isinstance(test.op, ast.Or):
+        out = set()
+        for v in test.values:
+            out |= missing_set(v, var)
+        return out
+    if isinstance(test, ast.UnaryOp) and isinstance(test.op, ast.Not):
+        return sentinels(test.operand, var)
+    if isinstance(test, ast.Compare) and len(test.ops) == 1 and isinstance(test.left, ast.Name) and test.left.id == var:
+        c = test.comparators[0]
+        if isinstance(test.ops[0], ast.Eq) and isinstance(c, ast.Constant):
+            return {c.value}
+        if isinstance(test.ops[0], ast.In) and isinstance(c, (ast.Tuple, ast.List, ast.Set)):
+            return {e.value for e in c.elts if isinstance(e, ast.Constant)}
+    return set()
 
 
 def run(ctx):
@@ -104,6 +122,55 @@ def run(ctx):
                 ctx.violation("R6.3", hcb.qualname, c, loc(hcb, c),
                               "a reference is substituted with plain str.replace, bypassing the n/a-aware splicer: a missing "
                               "cell leaves its comma / parentheses behind (`, Blue`, `(Label/33, )`)")
+
+    # text spliced into a regular expression is escaped
+    ctx.rule("R6.5", "text that is interpolated into a regular-expression pattern goes through re.escape")
+    from sa.dataflow import ReachingDefs as _RD6
+    RE_FUNCS = {"sub": 0, "subn": 0, "search": 0, "match": 0, "fullmatch": 0, "findall": 0, "finditer": 0, "split": 0, "compile": 0}
+    n_pat = 0
+    for f in prog.functions.values():
+        if f.module.name not in ("hed.models.df_util", "hed.models.base_input", "hed.models.column_mapper", "hed.models.sidecar",
+                                 "hed.models.column_metadata"):
+            continue      # (the search modules build patterns from query syntax on purpose)
+        rd6 = None
+        for c in walk_no_nested(f.node):
+            if not (isinstance(c, ast.Call) and isinstance(c.func, ast.Attribute) and c.func.attr in RE_FUNCS and
+                    isinstance(c.func.value, ast.Name) and c.func.value.id == "re" and c.args):
+                continue
+            n_pat += 1
+            pat = c.args[0]
+            exprs = [pat]
+            if isinstance(pat, ast.Name):
+                rd6 = rd6 or _RD6(f)
+                exprs = [d.value for d in (rd6.at(c, pat.id) or []) if d.kind == "assign" and d.value is not None]
+            for e in exprs:
+                parts = []
+
+                def flat(x):
+                    if isinstance(x, ast.BinOp) and isinstance(x.op, ast.Add):
+                        flat(x.left); flat(x.right)
+                    elif isinstance(x, ast.JoinedStr):
+                        for v_ in x.values:
+                            parts.append(v_.value if isinstance(v_, ast.FormattedValue) else v_)
+                    else:
+                        parts.append(x)
+                flat(e)
+                if len(parts) < 2:
+                    continue
+                for prt in parts:
+                    if isinstance(prt, ast.Constant):
+                        continue
+                    esc = isinstance(prt, ast.Call) and call_name(prt) == "escape"
+                    if not esc and isinstance(prt, ast.Name):
+                        rd6 = rd6 or _RD6(f)
+                        ds = rd6.at(c, prt.id) or []
+                        esc = bool(ds) and all(d.kind == "assign" and isinstance(d.value, ast.Call) and call_name(d.value) == "escape" for d in ds)
+                    ctx.saw(f)
+                    ctx.check(esc, "R6.5", f.qualname, c, loc(f, c),
+                              "`%s` is concatenated into the pattern of `re.%s` without re.escape: a column reference such as `{2}` is read "
+                              "as a quantifier, so the n/a clean-up removes the wrong text (`({2}, Square), Blue` becomes `{2}Square), Blue`)"
+                              % (norm(prt)[:30], c.func.attr), desc="%s: `%s` escaped in the pattern" % (f.short, norm(prt)[:30]))
+    ctx.floor("R6.5", "regular-expression calls in the assembly modules", n_pat, 1)
 
     # a cell text is compared as a whole: `x in "<text>"` is a substring test
     n_in = 0
@@ -187,6 +254,21 @@ def run(ctx):
                     consts.append((n_, v.args[1].value))
                 if isinstance(v, ast.Call) and call_name(v) == "get" and len(v.args) == 1:
                     consts.append((n_, None))
+        # a transformer that plugs the cell text into a template must first step aside for every missing text
+        subst = [c_ for c_ in walk_no_nested(h.node) if isinstance(c_, ast.Call) and isinstance(c_.func, ast.Attribute)
+                 and c_.func.attr in ("replace", "format") and c_.args and
+                 any(isinstance(a_, ast.Constant) and a_.value == "#" for a_ in c_.args)]
+        if subst and len(h.params()) >= 2:
+            cell = h.params()[-1]
+            covered = set()
+            for st in walk_no_nested(h.node):
+                if isinstance(st, ast.If) and st.body and isinstance(st.body[-1], ast.Return):
+                    covered |= missing_set(st.test, cell)
+            ctx.check(comb <= covered, "R6.2", h.qualname, subst[0], loc(h, subst[0]),
+                      "transformer %s substitutes the cell text into its template unless the cell is one of %s, but the combiner and "
+                      "splicer treat %s as missing: an empty cell yields a template with an empty value (`Label/`) instead of being "
+                      "skipped" % (h.short, sorted(map(repr, covered)), sorted(map(repr, comb))),
+                      desc="%s steps aside for every missing cell text" % h.short)
         for node, c in consts:
             ctx.check(c in comb, "R6.2", h.qualname, node, loc(h, node),
                       "transformer %s returns %r for a missing/unknown cell, which is not in the missing set %s the combiner "
